@@ -293,7 +293,7 @@ UNITS.append(U(
         3: dict(assigns='pos', inv=['start <= pos', 'pos <= len'], dec='len - pos'),
         4: dict(assigns='pos', inv=['start <= pos + 1', 'pos <= len'], dec='len - pos')}}},
     harness='void HARNESS(void) { bstr *in; htp_uri_t **u; htp_parse_uri(in, u); CANARY(); }',
-    defs={'quick': {'VCAP': 64}, 'thorough': {'VCAP': 4096}}, min_obl=100, timeout=(600, 1800), assumes=AC,
+    defs={'quick': {'VCAP': 64, 'C13_LEVEL': 0}, 'thorough': {'VCAP': 4096}}, min_obl=100, timeout=(400, 1800), objbits=12, assumes=AC,
     sub='htp_parse_uri for targets of ANY length: memory safety, termination, every component is taken from inside the target, and the full adjacency chain over the '
         'provenance log (scheme at 0 + ":", "//", user [":" password] "@", host [":" port], path, "?" query, "#" fragment, last component ends where the trailing '
         "spaces begin); '/'-targets have no scheme/authority"))
